@@ -225,11 +225,16 @@ class Gen:
                     if cands and r.random() < 0.3:
                         name = r.choice(cands)
                         collide = True
+                    elif in_fn and r.random() < 0.2:
+                        # named like a variable of an ENCLOSING scope: a new local for the duration of the loop only
+                        outer = [x for sc in env[:in_fn['base']] for x, t in sc.items() if t == 'int' and x[0] not in 'wj'
+                                 and not any(x in sc2 for sc2 in env[in_fn['base']:])]
+                        name = r.choice(outer) if outer else self.fresh('j')
                     else:
                         name = self.fresh('j')
                 # a colliding counter does not occur in its own bounds (the order "assign start, then evaluate
                 # the upper bound" is an implementation detail the language does not define)
-                benv0 = [{x: t for x, t in sc.items() if not (collide and x == name)} for sc in env]
+                benv0 = [{x: t for x, t in sc.items() if not (named and x == name)} for sc in env]   # the counter's own name stays out of bounds and step
                 lit_only = 2.0 if collide else 0.7      # (calls could read the counter through a capture)
                 a = ('int', r.randint(0, 2)) if r.random() < lit_only else self.expr(benv0, 'int', 1, in_fn)
                 b = ('int', r.randint(1, 5)) if r.random() < lit_only else self.expr(benv0, 'int', 1, in_fn)
@@ -286,6 +291,12 @@ class Gen:
                 body.append(('from', ('int', 0), ('int', r.randint(1, 3)), False, None, nm, False,
                              [('print', ('bin', '+', ('var', params[0][0]), ('int', 1)) if params and params[0][1] == 'int' else ('str', 'tick'))]))
         body += self.block(fenv, self.max_depth - 1 - nested_depth, 0, in_fn, n=r.randint(1, 4))
+        if ret is None and not recursive and r.random() < 0.3 and not (body and body[-1][0] == 'ret'):
+            # the function's LAST statement is a loop with a constant-true condition left by break
+            w = self.fresh('w')
+            body += [('asg', w, None, ('int', 0)),
+                     ('while', ('bool', True), [('asg', w, None, ('bin', '+', ('var', w), ('int', 1))),
+                                                ('if', ('bin', '>=', ('var', w), ('int', r.randint(1, 3))), [('print', ('var', w)), ('break',)])])]
         if body and body[-1][0] == 'ret':
             pass
         elif ret is not None:
@@ -375,7 +386,14 @@ def esc(s):
     return s.replace('\\', '\\\\').replace('"', '\\"').replace('\n', '\\n').replace('\t', '\\t')
 
 
-def ms_expr(e, top=False):
+MINIMAL_PARENS = False      # when True, expressions are rendered with only the parentheses precedence requires
+PREC = {'or': 1, 'and': 2, '<': 3, '<=': 3, '>': 3, '>=': 3, '==': 3, '!=': 3, '+': 6, '-': 6, '*': 7, '/': 7, '%': 7}
+
+
+def ms_expr(e, top=False, need=0):
+    """need = the lowest operator level that may appear here without parentheses (left-associative infix
+    operators: the right operand needs one level more).  Levels follow compiler/src/ast/math_expr.rs PRATT_PARSER:
+    || (1) < && (2) < comparisons (3) < + - (6) < * / % (7) < prefix ! - (8) < postfix."""
     k = e[0]
     if k == 'int':
         return str(e[1])
@@ -387,18 +405,23 @@ def ms_expr(e, top=False):
         return 'nil'
     if k == 'var':
         return e[1]
-    if k == 'bin':
-        return '(%s %s %s)' % (ms_expr(e[2]), e[1], ms_expr(e[3]))
-    if k == 'and':
-        return '(%s && %s)' % (ms_expr(e[1]), ms_expr(e[2]))
-    if k == 'or':
-        return '(%s || %s)' % (ms_expr(e[1]), ms_expr(e[2]))
+    if k in ('bin', 'and', 'or'):
+        if k == 'bin':
+            op, a, b = e[1], e[2], e[3]
+            lvl = PREC[op]
+        else:
+            op, a, b = ('&&' if k == 'and' else '||'), e[1], e[2]
+            lvl = PREC[k]
+        if not MINIMAL_PARENS:
+            return '(%s %s %s)' % (ms_expr(a), op, ms_expr(b))
+        txt = '%s %s %s' % (ms_expr(a, False, lvl), op, ms_expr(b, False, lvl + 1))
+        return '(%s)' % txt if lvl < need else txt
     if k == 'not':
-        return '!%s' % ms_expr(e[1])
+        return '!%s' % ms_expr(e[1], False, 8)
     if k == 'neg':
-        return '-%s' % ms_expr(e[1])
+        return '-%s' % ms_expr(e[1], False, 8)
     if k == 'call':
-        return '%s(%s)' % (ms_expr(e[1]), ', '.join(ms_expr(a) for a in e[2]))
+        return '%s(%s)' % (ms_expr(e[1], False, 9), ', '.join(ms_expr(a) for a in e[2]))
     if k == 'self':
         return 'self(%s)' % ', '.join(ms_expr(a) for a in e[1])
     if k == 'fn':
@@ -408,7 +431,7 @@ def ms_expr(e, top=False):
     if k == 'nilor':
         return '((%s) or %s)' % (ms_expr(e[1]), ms_expr(e[2]))
     if k == 'get':
-        return '(get %s)' % ms_expr(e[1])
+        return '(get %s)' % ms_expr(e[1], False, 9)
     raise ValueError(k)
 
 
@@ -702,8 +725,13 @@ def skeleton_programs(depth, per_file=12):
     fn_bodies = list(skeletons(depth, False, True, [0]))
     mod_bodies = list(skeletons(depth, False, False, [0]))
     helper = ('asg', 'h', None, ('fn', [('x', 'int')], 'int', [('ret', ('bin', '*', ('var', 'x'), ('int', 2)))]))
+    tail_loop = ('asg', 'tl', None, ('fn', [('n', 'int')], None, [
+        ('asg', 'k', 'int', ('int', 0)),
+        ('while', ('bool', True), [('asg', 'k', None, ('bin', '+', ('var', 'k'), ('int', 1))),
+                                   ('ifelse', ('bin', '>', ('var', 'k'), ('var', 'n')), [('print', ('var', 'k')), ('break',)], [('continue',)])])]))
     for start in range(0, len(fn_bodies), per_file):
-        prog = [('asg', 'n', 'int', ('int', 1)), ('asg', 'k', 'int', ('int', 0)), helper]
+        prog = [('asg', 'n', 'int', ('int', 1)), ('asg', 'k', 'int', ('int', 0)), helper, tail_loop,
+                ('expr', ('call', ('var', 'tl'), [('int', 2)]))]
         names = []
         for i, b in enumerate(fn_bodies[start:start + per_file]):
             fname = 'f%d' % i
